@@ -123,6 +123,9 @@ pub enum Driver {
 	Zip,
 	/// `ParsedJar<ClassRepr, Vec<u8>>` holding the same entries (storage/parsed.rs)
 	Parsed,
+	/// the same zip archives behind a `Read + Seek` source that serves at most `chunk` bytes per call and answers every
+	/// `interrupt`-th call (0 = never) with `ErrorKind::Interrupted`: storage/zip_impls.rs over a source other than a `Cursor`
+	Chunked { chunk: usize, interrupt: usize },
 }
 
 impl Driver {
@@ -130,7 +133,65 @@ impl Driver {
 		match self {
 			Driver::Zip => "zip-jar-input",
 			Driver::Parsed => "parsed-jar-input",
+			Driver::Chunked { .. } => "zip-jar-behind-a-chunked-source",
 		}
+	}
+}
+
+/// a `Read + Seek` source over a slice that serves at most `chunk` bytes per call; every `interrupt`-th call fails with
+/// `Interrupted` and moves nothing (what a signal does to a read from a file)
+pub struct ChunkedSource<'a> {
+	data: &'a [u8],
+	pos: u64,
+	chunk: usize,
+	interrupt: usize,
+	calls: usize,
+}
+
+impl Read for ChunkedSource<'_> {
+	fn read(&mut self, buf: &mut [u8]) -> std::io::Result<usize> {
+		self.calls += 1;
+		if self.interrupt != 0 && self.calls % self.interrupt == 0 {
+			return Err(std::io::Error::new(std::io::ErrorKind::Interrupted, "interrupted"));
+		}
+		let start = (self.pos as usize).min(self.data.len());
+		let n = buf.len().min(self.chunk).min(self.data.len() - start);
+		buf[..n].copy_from_slice(&self.data[start..start + n]);
+		self.pos += n as u64;
+		Ok(n)
+	}
+}
+
+impl std::io::Seek for ChunkedSource<'_> {
+	fn seek(&mut self, to: std::io::SeekFrom) -> std::io::Result<u64> {
+		let target: i128 = match to {
+			std::io::SeekFrom::Start(n) => n as i128,
+			std::io::SeekFrom::End(d) => self.data.len() as i128 + d as i128,
+			std::io::SeekFrom::Current(d) => self.pos as i128 + d as i128,
+		};
+		if target < 0 {
+			return Err(std::io::Error::new(std::io::ErrorKind::InvalidInput, "seek before the start"));
+		}
+		self.pos = target as u64;
+		Ok(self.pos)
+	}
+}
+
+struct ChunkedJar<'d> {
+	data: &'d [u8],
+	chunk: usize,
+	interrupt: usize,
+}
+
+impl dukebox::storage::Jar for ChunkedJar<'_> {
+	type Opened<'a> = zip::ZipArchive<ChunkedSource<'a>> where Self: 'a;
+
+	fn open(&self) -> anyhow::Result<Self::Opened<'_>> {
+		Ok(zip::ZipArchive::new(ChunkedSource { data: self.data, pos: 0, chunk: self.chunk.max(1), interrupt: self.interrupt, calls: 0 })?)
+	}
+
+	fn put_to_file<'a>(&'a self, _suggested: &'a std::path::Path) -> anyhow::Result<&'a std::path::Path> {
+		anyhow::bail!("a jar of the harness is not stored anywhere")
 	}
 }
 
@@ -155,6 +216,7 @@ pub fn run_merge(driver: Driver, client: &[u8], server: &[u8], cin: &Entries, si
 		let merged = match driver {
 			Driver::Zip => dukebox::merge::merge(UnnamedMemJar { data: client.to_vec() }, UnnamedMemJar { data: server.to_vec() })?,
 			Driver::Parsed => dukebox::merge::merge(parsed_jar(cin), parsed_jar(sin))?,
+			Driver::Chunked { chunk, interrupt } => dukebox::merge::merge(ChunkedJar { data: client, chunk, interrupt }, ChunkedJar { data: server, chunk, interrupt })?,
 		};
 		Ok(merged.to_mem()?.data)
 	});
@@ -525,9 +587,16 @@ fn check_members(rep: &mut Rep, st: &mut Stats, class: &str, kind: &str, c: &[Me
 		};
 		let mut stripped = m.clone();
 		let marks = take_marks(stripped.ann());
-		judge_marks(rep, st, class, kind, &format!("{k:?}"), expected, &marks);
+		// the same member of the input, without the side marks it already carried there, and those marks
+		let sides: Vec<(Member, Vec<Mark>)> = [cm, sm].into_iter().flatten().map(|x| {
+			let mut x = x.clone();
+			let pre = sides_only(&take_marks(x.ann()));
+			(x, pre)
+		}).collect();
+		let ins: Vec<Vec<Mark>> = sides.iter().map(|x| x.1.clone()).collect();
+		marks_verdict(class, kind, &format!("{k:?}"), expected, &marks, &ins).apply(rep, st);
 		// content: fact by fact from one of the sides
-		let cands: Vec<SClass> = [cm, sm].into_iter().flatten().map(|x| x.wrap()).collect();
+		let cands: Vec<SClass> = sides.iter().map(|x| x.0.wrap()).collect();
 		let rw = stripped.wrap();
 		if cands.iter().any(|x| x == &rw) {
 			st.outcome(&format!("content:{kind}:from-a-side"));
@@ -544,36 +613,108 @@ fn check_members(rep: &mut Rep, st: &mut Stats, class: &str, kind: &str, c: &[Me
 	}
 }
 
-fn judge_marks(rep: &mut Rep, st: &mut Stats, class: &str, kind: &str, what: &str, expected: Option<Side>, marks: &[(Result<Side, String>, &'static str)]) {
-	for (m, _) in marks {
-		if let Err(e) = m {
-			rep.diff(&format!("{kind}:side-mark-malformed"), format!("{class}: {kind} {what}: an @Environment annotation that does not name a side: {e}"));
+/// a side mark as found: the side it names, or the text of an annotation that names none
+type Mark = Result<Side, String>;
+
+/// multiset difference `a - b`
+fn minus<T: PartialEq + Clone>(a: &[T], b: &[T]) -> Vec<T> {
+	let mut rest: Vec<&T> = b.iter().collect();
+	let mut out = Vec::new();
+	for x in a {
+		match rest.iter().position(|y| *y == x) {
+			Some(i) => {
+				rest.swap_remove(i);
+			},
+			None => out.push(x.clone()),
 		}
 	}
-	let sides: Vec<Side> = marks.iter().filter_map(|(m, _)| m.as_ref().ok().copied()).collect();
+	out
+}
+
+fn sides_only(m: &[(Mark, &'static str)]) -> Vec<Mark> {
+	m.iter().map(|x| x.0.clone()).collect()
+}
+
+/// what the judgement of the side marks of one class / member / interface found
+#[derive(Default)]
+struct Verdict {
+	diffs: Vec<(String, String)>,
+	outcomes: Vec<String>,
+}
+
+impl Verdict {
+	fn apply(self, rep: &mut Rep, st: &mut Stats) {
+		for o in self.outcomes {
+			st.outcome(&o);
+		}
+		for (k, t) in self.diffs {
+			rep.diff(&k, t);
+		}
+	}
+}
+
+/// The side marks of one class, member or interface of the merged jar (`out`) against the marks the same thing already
+/// carried in the input (`ins`: one list per side on which it exists). What the merge ADDED is `out` minus the input's marks
+/// (as multisets): a one-sided thing must carry a mark of its side in the end, nothing added may name the other side or no
+/// side, and at most one mark is added; a shared thing gets nothing added with respect to one of its two sides. Marks that
+/// were in the input may stay or go (the statement speaks about what the merge marks, not about marks it finds).
+fn marks_verdict(class: &str, kind: &str, what: &str, expected: Option<Side>, out: &[(Mark, &'static str)], ins: &[Vec<Mark>]) -> Verdict {
+	let mut v = Verdict::default();
+	let outv = sides_only(out);
 	match expected {
 		Some(side) => {
-			if sides.is_empty() {
-				if marks.is_empty() {
-					rep.diff(&format!("{kind}:one-sided-not-marked"), format!("{class}: {kind} {what} exists on the {} only and carries no side mark", side.name()));
+			let empty = Vec::new();
+			let in0 = ins.first().unwrap_or(&empty);
+			let added = minus(&outv, in0);
+			let mut malformed = false;
+			for m in &added {
+				if let Err(e) = m {
+					malformed = true;
+					v.diffs.push((format!("{kind}:side-mark-malformed"), format!("{class}: {kind} {what}: an @Environment annotation that does not name a side: {e}")));
 				}
-			} else if sides.iter().any(|s| *s != side) {
-				rep.diff(&format!("{kind}:marked-with-wrong-side"), format!("{class}: {kind} {what} exists on the {} only and is marked {:?}", side.name(), sides));
-			} else if sides.len() > 1 {
-				rep.diff(&format!("{kind}:marked-twice"), format!("{class}: {kind} {what} carries {} side marks", sides.len()));
+			}
+			let added_sides: Vec<Side> = added.iter().filter_map(|m| m.as_ref().ok().copied()).collect();
+			let own_out = outv.iter().filter(|m| **m == Ok(side)).count();
+			if added_sides.iter().any(|s| *s != side) {
+				v.diffs.push((format!("{kind}:marked-with-wrong-side"), format!("{class}: {kind} {what} exists on the {} only and is marked {:?} (marks it already had in the input: {in0:?})", side.name(), added_sides)));
+			} else if own_out == 0 {
+				if !malformed {
+					v.diffs.push((format!("{kind}:one-sided-not-marked"), format!("{class}: {kind} {what} exists on the {} only and carries no mark of that side (marks in the input: {in0:?}, in the merged jar: {outv:?})", side.name())));
+				}
+			} else if added_sides.len() > 1 {
+				v.diffs.push((format!("{kind}:marked-twice"), format!("{class}: {kind} {what} got {} side marks", added_sides.len())));
 			} else {
-				st.outcome(&format!("mark:{kind}:{}-only-marked", side.name()));
-				st.outcome(&format!("mark-placement:{kind}:{}", marks[0].1));
+				v.outcomes.push(format!("mark:{kind}:{}-only-marked", side.name()));
+				if let Some((_, place)) = out.iter().rev().find(|m| m.0 == Ok(side)) {
+					v.outcomes.push(format!("mark-placement:{kind}:{place}"));
+				}
+				if !in0.is_empty() {
+					let other = in0.iter().filter(|m| matches!(m, Ok(s) if *s != side)).count();
+					let other_out = outv.iter().filter(|m| matches!(m, Ok(s) if *s != side)).count();
+					if other > 0 {
+						v.outcomes.push(format!("premarked:{kind}:with-the-other-side:{}", if other_out == other { "old-mark-kept-and-own-side-added" } else { "old-mark-replaced" }));
+					}
+					if in0.iter().any(|m| *m == Ok(side)) {
+						v.outcomes.push(format!("premarked:{kind}:with-its-own-side:{}", if added_sides.is_empty() { "left-as-it-was" } else { "marked-again" }));
+					}
+				}
 			}
 		},
 		None => {
-			if !marks.is_empty() {
-				rep.diff(&format!("{kind}:shared-marked"), format!("{class}: {kind} {what} exists on both sides and carries a side mark {:?}", marks.iter().map(|m| &m.0).collect::<Vec<_>>()));
+			let fits = ins.is_empty() && outv.is_empty() || ins.iter().any(|i| minus(&outv, i).is_empty());
+			if !fits {
+				let empty = Vec::new();
+				let added = minus(&outv, ins.first().unwrap_or(&empty));
+				v.diffs.push((format!("{kind}:shared-marked"), format!("{class}: {kind} {what} exists on both sides and got a side mark {added:?} (marks in the input: {ins:?})")));
 			} else {
-				st.outcome(&format!("mark:{kind}:shared-unmarked"));
+				v.outcomes.push(format!("mark:{kind}:shared-unmarked"));
+				if ins.iter().any(|i| !i.is_empty()) {
+					v.outcomes.push(format!("premarked:{kind}:shared:nothing-added"));
+				}
 			}
 		},
 	}
+	v
 }
 
 fn members(c: &SClass) -> (Vec<Member>, Vec<Member>) {
@@ -625,52 +766,81 @@ fn judge_differing_class(rep: &mut Rep, st: &mut Stats, name: &str, c: &SClass, 
 	check_members(rep, st, name, "field", &cf, &sf, &rf);
 	check_members(rep, st, name, "method", &cm, &sm, &rm);
 
-	// interfaces
+	// interfaces: the marks live in class annotations; those the sides already carried are taken out of all three classes
+	type ItfMark = Result<(Side, JS), String>;
 	let mut rl = class_level(r);
+	let mut cl = class_level(c);
+	let mut sl = class_level(s);
 	let marks = take_interface_marks(&mut rl.annotations);
+	let pre_c: Vec<ItfMark> = take_interface_marks(&mut cl.annotations).into_iter().map(|m| m.0).collect();
+	let pre_s: Vec<ItfMark> = take_interface_marks(&mut sl.annotations).into_iter().map(|m| m.0).collect();
 	let dup = |l: &[JS]| l.iter().enumerate().any(|(i, x)| l[..i].contains(x));
 	if dup(&c.interfaces) || dup(&s.interfaces) {
 		st.outcome("skipped:duplicate-interfaces-in-input");
 	} else {
 		check_list(rep, st, name, "interface", &c.interfaces, &s.interfaces, &r.interfaces);
-		for (m, _) in &marks {
-			if let Err(e) = m {
-				rep.diff("interface:side-mark-malformed", format!("{name}: an interface side mark that does not name a side and an interface: {e}"));
-			}
-		}
-		let good: Vec<(Side, JS, &'static str)> = marks.iter().filter_map(|(m, p)| m.as_ref().ok().map(|(s, i)| (*s, i.clone(), *p))).collect();
 		let desc = |i: &JS| {
 			let mut d = vec![b'L' as u16];
 			d.extend(&i.0);
 			d.push(b';' as u16);
 			JS(d)
 		};
-		for i in &r.interfaces {
-			let expected = match (c.interfaces.contains(i), s.interfaces.contains(i)) {
-				(true, false) => Some(Side::Client),
-				(false, true) => Some(Side::Server),
-				(true, true) => None,
-				(false, false) => continue,
-			};
-			let mine: Vec<(Result<Side, String>, &'static str)> = good.iter().filter(|(_, d, _)| *d == desc(i)).map(|(s, _, p)| (Ok(*s), *p)).collect();
-			judge_marks(rep, st, name, "interface", &format!("{i:?}"), expected, &mine);
-		}
-		for (_, d, _) in &good {
-			if !r.interfaces.iter().any(|i| desc(i) == *d) {
-				rep.diff("interface:side-mark-for-absent-interface", format!("{name}: a side mark names {d:?}, which the merged class does not implement ({:?})", r.interfaces));
+		// the class-level annotations of the merged class come from one of the sides: judge against the marks of that side
+		let against = |pre: &[ItfMark]| -> Verdict {
+			let mut v = Verdict::default();
+			let outv: Vec<ItfMark> = marks.iter().map(|m| m.0.clone()).collect();
+			let added = minus(&outv, pre);
+			for m in &added {
+				if let Err(e) = m {
+					v.diffs.push(("interface:side-mark-malformed".to_owned(), format!("{name}: an interface side mark that does not name a side and an interface: {e}")));
+				}
+			}
+			for i in &r.interfaces {
+				let expected = match (c.interfaces.contains(i), s.interfaces.contains(i)) {
+					(true, false) => Some(Side::Client),
+					(false, true) => Some(Side::Server),
+					(true, true) => None,
+					(false, false) => continue,
+				};
+				let d = desc(i);
+				let mine: Vec<(Mark, &'static str)> = marks.iter().filter_map(|(m, p)| m.as_ref().ok().filter(|x| x.1 == d).map(|x| (Ok(x.0), *p))).collect();
+				let had: Vec<Mark> = pre.iter().filter_map(|m| m.as_ref().ok().filter(|x| x.1 == d).map(|x| Ok(x.0))).collect();
+				let one = marks_verdict(name, "interface", &format!("{i:?}"), expected, &mine, &[had]);
+				v.diffs.extend(one.diffs);
+				v.outcomes.extend(one.outcomes);
+			}
+			for m in &added {
+				if let Ok((_, d)) = m {
+					if !r.interfaces.iter().any(|i| desc(i) == *d) {
+						v.diffs.push(("interface:side-mark-for-absent-interface".to_owned(), format!("{name}: a side mark names {d:?}, which the merged class does not implement ({:?})", r.interfaces)));
+					}
+				}
+			}
+			v
+		};
+		let mut v = against(&pre_c);
+		if !v.diffs.is_empty() && pre_s != pre_c {
+			let w = against(&pre_s);
+			if w.diffs.is_empty() {
+				v = w;
 			}
 		}
+		if !pre_c.is_empty() || !pre_s.is_empty() {
+			st.outcome("premarked:class-with-interface-marks-in-the-input");
+		}
+		v.apply(rep, st);
 	}
 
-	// a class of both sides carries no side mark itself
+	// a class of both sides gets no side mark itself
 	let class_marks = take_marks(&mut rl.annotations);
-	if !class_marks.is_empty() {
-		rep.diff("class:shared-marked", format!("{name}: the class exists on both sides and carries a side mark {:?}", class_marks.iter().map(|m| &m.0).collect::<Vec<_>>()));
+	let pre_class = [sides_only(&take_marks(&mut cl.annotations)), sides_only(&take_marks(&mut sl.annotations))];
+	if !pre_class.iter().any(|p| minus(&sides_only(&class_marks), p).is_empty()) {
+		rep.diff("class:shared-marked", format!("{name}: the class exists on both sides and got a side mark {:?} (marks in the input: {pre_class:?})", minus(&sides_only(&class_marks), &pre_class[0])));
+	} else if pre_class.iter().any(|p| !p.is_empty()) {
+		st.outcome("premarked:class:shared:nothing-added");
 	}
 
 	// the rest of the class: fact by fact from one of the sides
-	let cl = class_level(c);
-	let sl = class_level(s);
 	if inner_union_ok(c, s, r) {
 		rl.inner_classes = cl.inner_classes.clone();
 	}
@@ -692,26 +862,37 @@ fn judge_differing_class(rep: &mut Rep, st: &mut Stats, name: &str, c: &SClass, 
 /// a class present on one side only
 fn judge_one_sided_class(rep: &mut Rep, st: &mut Stats, name: &str, side: Side, l: &SClass, r: &SClass) {
 	let mut rs = r.clone();
+	let mut ls = l.clone();
 	let marks = take_marks(&mut rs.annotations);
-	judge_marks(rep, st, name, "class", name, Some(side), &marks);
-	// members of a one-sided class may (redundantly) carry the same side mark
-	let strip = |a: &mut SAnnotations, rep: &mut Rep| {
-		for (m, _) in take_marks(a) {
-			if m != Ok(side) {
-				rep.diff("class:member-of-one-sided-class-marked-with-other-side", format!("{name}: a member of a {}-only class is marked {m:?}", side.name()));
+	let pre = sides_only(&take_marks(&mut ls.annotations));
+	marks_verdict(name, "class", name, Some(side), &marks, &[pre]).apply(rep, st);
+	// members of a one-sided class may (redundantly) get the same side mark; marks they carried in the input are theirs
+	fn strip<M>(rep: &mut Rep, st: &mut Stats, name: &str, side: Side, out: &mut [M], inp: &mut [M], key: impl Fn(&M) -> (JS, JS), ann: impl Fn(&mut M) -> &mut SAnnotations) {
+		let mut pre: Vec<((JS, JS), Vec<Mark>)> = Vec::new();
+		for m in inp.iter_mut() {
+			let k = key(m);
+			pre.push((k, sides_only(&take_marks(ann(m)))));
+		}
+		for m in out.iter_mut() {
+			let k = key(m);
+			let got = sides_only(&take_marks(ann(m)));
+			let had = pre.iter().position(|p| p.0 == k).map(|i| pre.swap_remove(i).1).unwrap_or_default();
+			if !had.is_empty() {
+				st.outcome("premarked:member-of-one-sided-class");
+			}
+			for m in minus(&got, &had) {
+				if m != Ok(side) {
+					rep.diff("class:member-of-one-sided-class-marked-with-other-side", format!("{name}: member {k:?} of a {}-only class got the mark {m:?} (marks in the input: {had:?})", side.name()));
+				}
 			}
 		}
-	};
-	for f in &mut rs.fields {
-		strip(&mut f.annotations, rep);
 	}
-	for m in &mut rs.methods {
-		strip(&mut m.annotations, rep);
-	}
-	if &rs == l {
+	strip(rep, st, name, side, &mut rs.fields, &mut ls.fields, |f| (f.name.clone(), f.desc.clone()), |f| &mut f.annotations);
+	strip(rep, st, name, side, &mut rs.methods, &mut ls.methods, |m| (m.name.clone(), m.desc.clone()), |m| &mut m.annotations);
+	if rs == ls {
 		st.outcome("content:one-sided-class:unchanged");
 	} else {
-		for (k, detail) in cfmodel::sdiff::diff(l, &rs).0 {
+		for (k, detail) in cfmodel::sdiff::diff(&ls, &rs).0 {
 			rep.diff(&format!("one-sided:{k}"), format!("{name}: a {}-only class is changed beyond its side mark: {detail}", side.name()));
 		}
 	}
@@ -786,6 +967,13 @@ pub fn presence(name: &str, in_client: bool, in_server: bool) -> (Presence, &'st
 // ---------------------------------------------------------------------------------------------
 // the judge
 
+/// the largest count a 16-bit count field holds
+const LIMIT: usize = 65535;
+
+fn full(a: &SAnnotations) -> bool {
+	a.visible.len() >= LIMIT || a.invisible.len() >= LIMIT
+}
+
 /// pretty_assertions colours its panic message
 fn strip_ansi(s: &str) -> String {
 	let mut out = String::new();
@@ -844,20 +1032,53 @@ pub fn judge(ctx: &Ctx, st: &mut Stats, label: &str, client: &[u8], server: &[u8
 			}
 		}
 	}
+	// a count that is at the limit of its 16-bit field before the merge adds to it: refusing is the only right answer then
+	let mut at_limit: Vec<String> = Vec::new();
+	for (name, item) in cin.iter().chain(sin.iter()) {
+		let (Item::File(b), true) = (item, name.ends_with(".class")) else { continue };
+		if b.len() < 4 * LIMIT {
+			continue;
+		}
+		let other = if cmap.get(name.as_str()).is_some_and(|i| std::ptr::eq(*i, item)) { smap.get(name.as_str()) } else { cmap.get(name.as_str()) };
+		let Ok(mine) = &side_class(b).laundered else { continue };
+		match other {
+			None => {
+				if full(&mine.annotations) {
+					at_limit.push(format!("{name}: the one-sided class has {LIMIT} annotations in a list already"));
+				}
+			},
+			Some(Item::File(ob)) if ob != b => {
+				let Ok(theirs) = &side_class(ob).laundered else { continue };
+				if mine.interfaces != theirs.interfaces && full(&mine.annotations) {
+					at_limit.push(format!("{name}: the class has {LIMIT} annotations in a list already and its interfaces need marks"));
+				}
+				let lone_full = mine.fields.iter().any(|f| full(&f.annotations) && !theirs.fields.iter().any(|g| (&g.name, &g.desc) == (&f.name, &f.desc)))
+					|| mine.methods.iter().any(|m| full(&m.annotations) && !theirs.methods.iter().any(|g| (&g.name, &g.desc) == (&m.name, &m.desc)));
+				if lone_full {
+					at_limit.push(format!("{name}: a one-sided member has {LIMIT} annotations in a list already"));
+				}
+			},
+			_ => {},
+		}
+	}
 	other_facts.sort();
 	other_facts.dedup();
 	if !undecidable.is_empty() {
 		st.outcome("domain:contains-class-duke-cannot-round-trip");
 	}
+	if !at_limit.is_empty() {
+		st.outcome("domain:a-count-is-at-its-limit");
+	}
 
 	for d in drivers {
-		judge_run(&mut rep, st, *d, &cin, &sin, &other_facts, &undecidable);
+		judge_run(&mut rep, st, *d, &cin, &sin, &other_facts, &undecidable, &at_limit);
 	}
 	st.outcome(if rep.any() { "case:differences" } else { "case:held" });
 }
 
 /// one execution of the merge on the two jars and the judgement of its result
-fn judge_run(rep: &mut Rep, st: &mut Stats, driver: Driver, cin: &Entries, sin: &Entries, other_facts: &[String], undecidable: &[String]) {
+#[allow(clippy::too_many_arguments)]
+fn judge_run(rep: &mut Rep, st: &mut Stats, driver: Driver, cin: &Entries, sin: &Entries, other_facts: &[String], undecidable: &[String], at_limit: &[String]) {
 	let (label, client, server) = (rep.label, rep.client, rep.server);
 	let cmap: BTreeMap<&str, &Item> = cin.iter().map(|(n, i)| (n.as_str(), i)).collect();
 	let smap: BTreeMap<&str, &Item> = sin.iter().map(|(n, i)| (n.as_str(), i)).collect();
@@ -881,7 +1102,9 @@ fn judge_run(rep: &mut Rep, st: &mut Stats, driver: Driver, cin: &Entries, sin: 
 			return;
 		},
 		Outcome::Refused(e) => {
-			if !other_facts.is_empty() || !undecidable.is_empty() {
+			if !at_limit.is_empty() {
+				st.outcome("refused:a-count-is-at-its-limit");
+			} else if !other_facts.is_empty() || !undecidable.is_empty() {
 				st.outcome("refused:outside-the-statement");
 				for f in other_facts {
 					st.outcome(&format!("refused:sides-differ-in:{f}"));
